@@ -3,6 +3,7 @@ package server
 // C05 - fence notifications follow the documented enter/exit/inside/outside/cross rules.
 
 import (
+	"encoding/json"
 	"fmt"
 	"math"
 	"math/rand"
@@ -112,6 +113,27 @@ func runC05(w *World) {
 	setup := w.program("setup", func(r *rand.Rand) []Cmd {
 		fence = c05Fence(r, "hw", "fleet")
 		var p []Cmd
+		// the same area in one of its other spellings
+		if fence.area.circle {
+			if r.Intn(2) == 0 {
+				fence.cmd = []string{"within", "intersects"}[r.Intn(2)] // ... CIRCLE lat lon meters
+			}
+		} else {
+			switch r.Intn(5) {
+			case 0:
+				fence.area.syntax = "object"
+			case 1:
+				// a geohash cell near the drawn place
+				h := geohashOf((fence.area.minLat+fence.area.maxLat)/2, (fence.area.minLon+fence.area.maxLon)/2, 2+r.Intn(2))
+				if cell, ok := geohashCell(h); ok {
+					fence.area = fenceArea{minLat: cell[0], minLon: cell[1], maxLat: cell[2], maxLon: cell[3], syntax: "hash", hash: h}
+				}
+			case 2:
+				fence.area.syntax = "get"
+				ar := fence.area
+				p = append(p, Cmd{Args: []string{"SET", "areas", ar.areaRefID(), "BOUNDS", fnum(ar.minLat), fnum(ar.minLon), fnum(ar.maxLat), fnum(ar.maxLon)}})
+			}
+		}
 		p = append(p, Cmd{Args: append([]string{"SETHOOK", "hw", "http://hook0.sim:80/cb"}, fence.args()...), Tag: "fence"})
 		p = append(p, Cmd{Args: append([]string{"SETCHAN", "hc"}, fence.args()...)})
 		for i := 1; i <= nOther; i++ {
@@ -120,6 +142,7 @@ func runC05(w *World) {
 			if r.Intn(2) == 0 {
 				// overlapping the fence under test, so that it shares index candidates
 				o.area = fence.area
+				o.area.syntax, o.area.hash = "", "" // (the other hooks keep the plain spelling)
 				if o.area.circle {
 					o.cmd = "nearby"
 					o.area.meters *= []float64{0.5, 2, 1}[r.Intn(3)]
@@ -135,11 +158,17 @@ func runC05(w *World) {
 		return p
 	})
 	// recover the fence definition from the (possibly replayed) program
-	fence = fenceFromArgs("hw", setup[0].Args[3:])
+	fence = nil
+	for _, c := range setup {
+		if c.Tag == "fence" {
+			fence = fenceFromArgs("hw", c.Args[3:])
+		}
+	}
 	if fence == nil {
 		w.harnessErr("cannot parse the fence definition back from %v", setup[0].Args)
 		return
 	}
+	w.stat("c05.area_syntax."+map[bool]string{true: "circle/" + fence.cmd, false: "rect/" + fence.area.syntax}[fence.area.circle], 1)
 	sa := w.addActor(n, "127.0.0.1:50001", setup)
 	sa.onReply = func(op *Op) { hc.onReply(op, sa.end.c.name) }
 	if !w.Drain(30*time.Second, sa.done) {
@@ -399,6 +428,33 @@ func fenceFromArgs(name string, a []string) *fenceDef {
 		case "BOUNDS":
 			f.area = fenceArea{minLat: num(a[i+1]), minLon: num(a[i+2]), maxLat: num(a[i+3]), maxLon: num(a[i+4])}
 			i += 5
+		case "CIRCLE":
+			f.area = fenceArea{circle: true, lat: num(a[i+1]), lon: num(a[i+2]), meters: num(a[i+3])}
+			i += 4
+		case "HASH":
+			cell, ok := geohashCell(a[i+1])
+			if !ok {
+				return nil
+			}
+			f.area = fenceArea{minLat: cell[0], minLon: cell[1], maxLat: cell[2], maxLon: cell[3], syntax: "hash", hash: a[i+1]}
+			i += 2
+		case "OBJECT":
+			var pg struct {
+				Coordinates [][][]float64 `json:"coordinates"`
+			}
+			if json.Unmarshal([]byte(a[i+1]), &pg) != nil || len(pg.Coordinates) != 1 || len(pg.Coordinates[0]) != 5 {
+				return nil
+			}
+			c := pg.Coordinates[0]
+			f.area = fenceArea{minLat: c[0][1], minLon: c[0][0], maxLat: c[2][1], maxLon: c[2][0], syntax: "object"}
+			i += 2
+		case "GET":
+			parts := strings.Split(a[i+2], "_")
+			if len(parts) != 5 {
+				return nil
+			}
+			f.area = fenceArea{minLat: num(parts[1]), minLon: num(parts[2]), maxLat: num(parts[3]), maxLon: num(parts[4]), syntax: "get"}
+			i += 3
 		default:
 			return nil
 		}
